@@ -28,7 +28,7 @@ def run(env):
             ctx = "%s:%s" % (fl, pstr); P_, q_, g_ = pq(ctx)
             for i in range(n):
                 sk = [0, 1, q_ - 1][i] if i < 3 and pstr != "2048" else r.randrange(q_)
-                st1.append({"ctx": ctx, "op": "decrypt_and_prove", "args": [str(sk), [str(rnd_member(r, ctx)), str(rnd_member(r, ctx))], hexb(r.randbytes(i % 5)), script(r, 1024)], "tag": "big", "_sk": sk})
+                st1.append({"ctx": ctx, "op": "decrypt_and_prove", "args": [str(sk), [str(rnd_member(r, ctx)), str(rnd_member(r, ctx))], label_pool(r, i) if pstr != "2048" else hexb(r.randbytes(i % 5)), script(r, 1024)], "tag": "big", "_sk": sk})
                 st1.append({"ctx": ctx, "op": "th_decryption_factor", "args": [[str(rnd_member(r, ctx)), str(rnd_member(r, ctx))], str(sk), str(pow(g_, sk, P_)), "x:7468", script(r, 1024)], "tag": "threshold", "_sk": sk})
     o1 = env.harness(st1)
     st2 = []
@@ -52,7 +52,8 @@ def run(env):
                 st2.append({"ctx": ctx, "op": "verify_decryption", "args": [pk, f, str((int(ct[0]) * g_) % P_), ct[1], pf, a[2]], "_want": False if big else None, "_src": c, "tag": "other-ciphertext-mhr"})
                 st2.append({"ctx": ctx, "op": "verify_decryption", "args": [pk, f, ct[0], str((int(ct[1]) * g_) % P_), pf, a[2]], "_want": False if big else None, "_src": c, "tag": "other-ciphertext-gr"})
                 st2.append({"ctx": ctx, "op": "verify_decryption", "args": [str((int(pk) * g_) % P_), f, ct[0], ct[1], pf, a[2]], "_want": False if big else None, "_src": c, "tag": "other-key"})
-                st2.append({"ctx": ctx, "op": "verify_decryption", "args": [pk, f, ct[0], ct[1], pf, a[2] + "aa"], "_want": False if big else None, "_src": c, "tag": "other-label"})
+                for lv in (label_variants(a[2]) if not ctx.endswith(":2048") else [a[2] + "aa"]):
+                    st2.append({"ctx": ctx, "op": "verify_decryption", "args": [pk, f, ct[0], ct[1], pf, lv], "_want": False if big else None, "_src": c, "tag": "other-label"})
         else:
             f, pf, draws, used = o
             items.append((c, ctx, "th_decryption_factor_r", a[:4] + draws[:1], [f, pf]))
